@@ -11,7 +11,7 @@ import (
 type externModel func(f *frame, args []Val, c *ssa.CallCommon, pos string) Val
 
 var externModels map[string]externModel
-var externModelKeys map[string]func(sc *modScanner)
+var externModelKeys map[string]func(sc *modScanner, c *ssa.CallCommon)
 
 func init() {
 	externModels = map[string]externModel{
@@ -48,24 +48,41 @@ func init() {
 		"path/filepath.Dir":          mUninterpStr("filepath.Dir"),
 		"path/filepath.Clean":        mUninterpStr("filepath.Clean"),
 	}
-	externModelKeys = map[string]func(sc *modScanner){
-		"(*sync.Mutex).Lock":      func(sc *modScanner) { sc.lockKeys() },
-		"(*sync.Mutex).Unlock":    func(sc *modScanner) { sc.lockKeys() },
-		"(*sync.RWMutex).Lock":    func(sc *modScanner) { sc.lockKeys() },
-		"(*sync.RWMutex).Unlock":  func(sc *modScanner) { sc.lockKeys() },
-		"(*sync.RWMutex).RLock":   func(sc *modScanner) { sc.lockKeys() },
-		"(*sync.RWMutex).RUnlock": func(sc *modScanner) { sc.lockKeys() },
-		"(*sync.Once).Do":         func(sc *modScanner) { panic(unsupported("sync.Once.Do inside a loop")) },
+	lk := func(sc *modScanner, c *ssa.CallCommon) { sc.lockKeysOf(c) }
+	externModelKeys = map[string]func(sc *modScanner, c *ssa.CallCommon){
+		"(*sync.Mutex).Lock":      lk,
+		"(*sync.Mutex).Unlock":    lk,
+		"(*sync.RWMutex).Lock":    lk,
+		"(*sync.RWMutex).Unlock":  lk,
+		"(*sync.RWMutex).RLock":   lk,
+		"(*sync.RWMutex).RUnlock": lk,
+		"(*sync.Once).Do":         lk,
 	}
 }
 
-func (sc *modScanner) lockKeys() {
-	for k := range sc.x.heap.sorts {
-		if len(k) > 7 && k[:7] == "X:lock:" {
-			sc.keys[k] = true
-		}
-	}
+// lockKeysOf: the ghost lock variables of the lock passed as receiver.
+func (sc *modScanner) lockKeysOf(c *ssa.CallCommon) {
 	sc.lockTouched = true
+	if len(c.Args) == 0 {
+		return
+	}
+	kind, root, path, global, ok := addrRoot(c.Args[0])
+	if !ok {
+		for k := range sc.x.heap.sorts {
+			if len(k) > 7 && k[:7] == "X:lock:" {
+				sc.keys[k] = true
+			}
+		}
+		return
+	}
+	key := typeKey(root) + ":" + path
+	if kind == ptrGlobal {
+		key = "global:" + global + ":" + path
+	}
+	for _, kd := range []string{"held", "rheld", "epoch", "done"} {
+		k, s := lockKey(kd, key)
+		sc.add(k, s)
+	}
 }
 
 func errorT() types.Type { return types.Universe.Lookup("error").Type() }
@@ -149,6 +166,7 @@ func mMutexUnlock(f *frame, args []Val, c *ssa.CallCommon, pos string) Val {
 func mRLock(f *frame, args []Val, c *ssa.CallCommon, pos string) Val {
 	f.trust("sync.RWMutex: readers exclude the writer")
 	loc := f.lockLocOf(args[0])
+	f.assume(app(">=", f.lockGet("rheld", loc), "0"))
 	f.assert("lock.notheld", "read-lock acquired while write-held by the same thread (self-deadlock)", Not(f.lockGet("held", loc)), nil, pos)
 	f.lockSet("rheld", loc, app("+", f.lockGet("rheld", loc), "1"))
 	return Val{T: types.NewTuple()}
